@@ -35,7 +35,7 @@ inductive Slot where
   | box (tag : Nat) (c : Cell)
   /-- `Pin<Box<'a, T>>` -/
   | pin (c : Cell)
-  /-- `Box<'a, [T; N]>`, `N = cs.length`; `cap` (ghost) = capacity of the block, when known -/
+  /-- `Box<'a, [T; N]>`, `N = cs.length`; `cap` (ghost, informational) = capacity of the block the elements were created in, when known -/
   | arr (cs : List Cell) (cap : Option Nat)
   /-- `Box<'a, [T]>` -/
   | slice (cs : List Cell) (cap : Option Nat)
@@ -208,7 +208,7 @@ def unsize (b : List Cell) (fx : Fx) : List Cell × Fx :=
   (fromRaw p, fx)
 
 /-- the documented raw-parts round trip `Vec::from_raw_parts_in(Box::into_raw(b) as *mut T, len, cap, bump)`
-(the crate has no safe `Box<[T]> → Vec`) -/
+(the crate has no safe `Box<[T]> → Vec`), with `cap = len` -/
 def sliceToVec (s : List Cell) (fx : Fx) : List Cell × Fx := intoRaw s fx
 
 /-! ## Operations -/
@@ -441,10 +441,10 @@ def effOf (z : Bool) (op : Op) (w : W) : Eff × String :=
     | _ => skip
   | .sliceToVec s =>
     match w.slots[s]? with
-    | some (.slice cs (some cap)) =>
+    | some (.slice cs _) =>
       let (p, fx) := sliceToVec cs {}
-      -- a `RawVec` of zero-sized elements reports capacity `usize::MAX` whatever it was given
-      (.upd s (.vec p (if z then 2 ^ 64 - 1 else cap)) 0 fx false, "ok")
+      -- capacity given = length; a `RawVec` of zero-sized elements reports `usize::MAX` whatever it was given
+      (.upd s (.vec p (if z then 2 ^ 64 - 1 else cs.length)) 0 fx false, "ok")
     | _ => skip
   | .vecPush s x =>
     match w.slots[s]? with
